@@ -206,6 +206,7 @@ fn text_mutants(s: &str, rng: &mut Rng) -> Vec<String> {
 }
 
 pub fn run_one(out: &mut Out, sc: usize, s: &J) {
+    if sc < RESUME.with(|r| r.get()).0 { return; }          // finished before the restart: its events are already in the trace
     let mut t = Tally { tried: 0, err: 0, ok: 0, panic: 0 };
     match s["kind"].as_str().unwrap() {
         "base" => {
